@@ -221,7 +221,7 @@ func makeSource[T num, A arr[T, A]](k kit[T, A], layout int, shape []int, vals [
 		flat := k.fromSlice(tv, []int{n})
 		return flat.MustReshape(shape)
 	case 5: // C-backed
-		cb := allocC(n*k.elemSize, true, false)
+		cb := allocC(n*k.cSize, true, false)
 		a := k.newC(cb.ptr, shape)
 		return fill(a)
 	}
